@@ -1,13 +1,23 @@
 #!/bin/bash
-# Formal run of every seeded change against /repo itself: apply, run the check(s), undo.
-# usage: seed_formal.sh   (writes seeded/FORMAL_RUN.txt)
+# Formal run of seeded changes against /repo itself: apply, run the check(s), undo.
+# usage: seed_formal.sh            every seed (rewrites seeded/FORMAL_RUN.txt)
+#        seed_formal.sh NAME...    only these seeds (their lines in FORMAL_RUN.txt are replaced)
+#        seed_formal.sh -missing   only seeds that have no line in FORMAL_RUN.txt yet
 cd /verif
-OUT=seeded/FORMAL_RUN.txt; : > $OUT
+OUT=seeded/FORMAL_RUN.txt
 git -C /repo status --short | grep -v spatial_reference_systems.go | grep -q . && { echo "/repo not clean"; exit 2; }
-for d in seeded/*/; do
-  n=$(basename $d); [ -f $d/meta.json ] || continue
+if [ "$1" = "-missing" ]; then
+  set --
+  for d in seeded/*/; do n=$(basename $d); grep -q "^$n:" $OUT 2>/dev/null || set -- "$@" $n; done
+  [ $# -eq 0 ] && { echo "nothing missing"; exit 0; }
+elif [ $# -eq 0 ]; then
+  : > $OUT
+  for d in seeded/*/; do set -- "$@" $(basename $d); done
+fi
+for n in "$@"; do
+  d=seeded/$n; [ -f $d/meta.json ] || { echo "$n: no meta.json"; continue; }
   props=$(python3 -c "import json;print(' '.join(json.load(open('$d/meta.json'))['checks']['run']))")
-  git -C /repo apply $PWD/$d/patch.diff || { echo "$n: patch does not apply" | tee -a $OUT; continue; }
+  git -C /repo apply $PWD/$d/patch.diff || { echo "$n: patch does not apply"; continue; }
   res=""
   for p in $props; do
     out=$(./check.sh $p quick 2>&1); rc=$?
@@ -15,6 +25,7 @@ for d in seeded/*/; do
     res="$res $p:rc=$rc,violations=$nv"
   done
   git -C /repo checkout -- .
-  echo "$n:$res" | tee -a $OUT
+  grep -v "^$n:" $OUT > $OUT.tmp 2>/dev/null; echo "$n:$res" >> $OUT.tmp; sort $OUT.tmp > $OUT; rm -f $OUT.tmp
+  echo "$n:$res"
 done
 git -C /repo status --short | grep -v spatial_reference_systems.go
